@@ -599,6 +599,18 @@ func deleteRawAddressRecord(ns mwdb.Bucket, k []byte) error {
 	return ns.Delete(k)
 }
 
+// unuseAddressRecord is called when the block holding the first payment to an address is
+// disconnected. A standard address keeps its record, marked unused again (height 0, as
+// PutNewAddress wrote it when the address was issued), so that it stays listed; the record
+// of a staking-form address is removed, as before.
+func unuseAddressRecord(ns mwdb.Bucket, k []byte, rec *addressRecord) error {
+	if rec.addressClass == massutil.AddressClassWitnessV0 {
+		rec.blockHeight = 0
+		return putRawAddressRecord(ns, k, valueAddressRecord(rec))
+	}
+	return deleteRawAddressRecord(ns, k)
+}
+
 func readAddressHeight(v []byte) uint64 {
 	return binary.BigEndian.Uint64(v)
 }
